@@ -384,6 +384,12 @@ func c21Run(c *fw.Ctx) {
 		if len(g.ag.Extra) > 0 {
 			c.Count("grammars_with_extraTypes", 1)
 		}
+		if g.ag.TwinLists {
+			c.Count("grammars_with_twin_lists", 1)
+		}
+		if g.ag.Chains > 0 {
+			c.Count("grammars_with_two_field_chains", 1)
+		}
 		seen := map[string]bool{}
 		for k := 0; k < nSent; k++ {
 			budget := 2 + r.Intn(30)
@@ -700,7 +706,7 @@ func c21Run(c *fw.Ctx) {
 func init() {
 	fw.Register(&fw.Check{
 		ID:          "C21",
-		Rule:        "each case: random grammars with eventBased/eventFields/eventAST (node types through nonterminal-, rule- and inline arrows; 1-2 categories declared with %interface whose alternatives report distinct node types or are bare references; named fields a=X, list fields a+=X, unnamed fields; X?, (a=X)?, a=X?, X*, X+, separator lists, nested choices; the same nonterminal in several fields; recursive nodes; helper nonterminals without arrows (left-recursive lists, optional helpers, groups) whose fields surface in their users; injected value tokens id/num and, in half of the grammars, injected comments; fileNode in half; extraTypes in half; every fourth candidate may contain empty nodes). Grammars the compiler rejects (conflicts, overlapping fields, category errors) are counted. The generated packages incl. ast/ and selector/ are built together with a reflective walker (sibling package) that runs the generated ast.Parse on sentences sampled from the grammar (irregular whitespace, comments between tokens), wraps every node with the generated factory and calls every exported accessor by reflection. Oracle: no accessor/factory panic; the wrapper type equals the node type; accessors with a single non-slice result (how the generated code marks required fields; optional ones return (T, bool), lists []T) return a valid node; every returned node's type equals the declared struct type or is in the declared category's table in listener.go; every child whose type is not an injected token type is returned by at least one accessor of its parent. The sampler also records the nodes (type, token span, parent) the annotations create for the derivation; built and annotated nodes are matched by type/start/emptiness so that a disagreement caused by the tree builder attaching an (empty) node to another parent than annotated gets its own signature family 'empty-node-misplaced/*' (resp. 'tree/*' for non-empty nodes) instead of the generic 'required-accessor/*', 'coverage/*' ones. Grammar non-trivial/distinct: >=50 accessor calls of >=2 kinds",
+		Rule:        "each case: random grammars with eventBased/eventFields/eventAST (node types through nonterminal-, rule- and inline arrows; 1-2 categories declared with %interface whose alternatives report distinct node types or are bare references; named fields a=X, list fields a+=X, unnamed fields; X?, (a=X)?, a=X?, X*, X+, separator lists, nested choices; the same nonterminal in several fields; recursive nodes; two lists whose elements differ only in the node name after '->'; node bodies with two separate chains of same-typed fields, the first ending in an optional field; helper nonterminals without arrows (left-recursive lists, optional helpers, groups) whose fields surface in their users; injected value tokens id/num and, in half of the grammars, injected comments; fileNode in half; extraTypes in half; every fourth candidate may contain empty nodes). Grammars the compiler rejects (conflicts, overlapping fields, category errors) are counted. The generated packages incl. ast/ and selector/ are built together with a reflective walker (sibling package) that runs the generated ast.Parse on sentences sampled from the grammar (irregular whitespace, comments between tokens), wraps every node with the generated factory and calls every exported accessor by reflection. Oracle: no accessor/factory panic; the wrapper type equals the node type; accessors with a single non-slice result (how the generated code marks required fields; optional ones return (T, bool), lists []T) return a valid node; every returned node's type equals the declared struct type or is in the declared category's table in listener.go; every child whose type is not an injected token type is returned by at least one accessor of its parent. The sampler also records the nodes (type, token span, parent) the annotations create for the derivation; built and annotated nodes are matched by type/start/emptiness so that a disagreement caused by the tree builder attaching an (empty) node to another parent than annotated gets its own signature family 'empty-node-misplaced/*' (resp. 'tree/*' for non-empty nodes) instead of the generic 'required-accessor/*', 'coverage/*' ones. Grammar non-trivial/distinct: >=50 accessor calls of >=2 kinds",
 		Assumptions: []string{"sentences sampled from the written grammar are sentences of the compiled grammar (C01/C13)", "node identity through Node pointers of the generated tree"},
 		Cases: func(tier string) int {
 			if tier == "thorough" {
@@ -713,6 +719,6 @@ func init() {
 		CPUBudget:     900,
 		MinNontrivial: func(tier string) int { return 12 },
 		RequiredCounters: []string{"accessor_calls", "required_present", "optional_present", "optional_absent", "list_empty", "list_many", "accessors_declared_category", "accessors_declared_node",
-			"children_checked", "injected_children_skipped", "recursive_nodes", "nodes_with_same_type_in_two_fields", "grammars_fileNode", "grammars_with_extraTypes", "returned_nodes_type_checked"},
+			"children_checked", "injected_children_skipped", "recursive_nodes", "nodes_with_same_type_in_two_fields", "grammars_fileNode", "grammars_with_extraTypes", "returned_nodes_type_checked", "grammars_with_twin_lists", "grammars_with_two_field_chains"},
 	})
 }
